@@ -23,7 +23,7 @@ PROP = {
              {"tag": "c06huge", "bin": "c06", "args": ["--huge"], "model": False}],
     "mismatch_is_failing": True,
     "regen_files": ["GenIter.v", "GenSigs.v", "GenPipe.v"],
-    "rule": "exhaustive: every reachable (front,back) position (directly and through clone) x every operation x every argument 0..=len+2 and usize::MAX for N<=5 (thorough: N<=8), followed by a fixed observation trailer; plus seeded histories over N in {0,1,2,3,5,8,16,97,1024}; the same with an observable-Clone element (c06cn) and with a zero-sized element (c06zs: all values 0, what shows is how many elements each operation visits). distinct = distinct CASE lines; non-trivial = the array is non-empty (first integer > 0); fold / rfold of the iterator itself (not of a clone) from every (front, back) position; Debug with up to 97 elements still to come",
+    "rule": "exhaustive: every reachable (front,back) position (directly and through clone) x every operation x every argument 0..=len+2 and usize::MAX for N<=5 (thorough: N<=8), followed by a fixed observation trailer; plus seeded histories over N in {0,1,2,3,5,8,16,97,1024}; the same with an observable-Clone element (c06cn) and with a zero-sized element (c06zs: all values 0, what shows is how many elements each operation visits). Direct oracles beside the model comparison: Debug under {:#?}, {:x?}, {:X?}, {:5?}, {:+?}, {:#06x?} must print what a one-field tuple struct holding the remaining slice prints; with the observable-Clone element Cn (clone counter + per-element use counter in a Cell) every clone() runs T::clone exactly len() times, each on the original's own element, and hands out only fresh clones. distinct = distinct CASE lines; non-trivial = the array is non-empty (first integer > 0); fold / rfold of the iterator itself (not of a clone) from every (front, back) position; Debug with up to 97 elements still to come",
     "nontrivial": lambda case, obs: case.split()[0] != "0",
     "manifest": {
         "design_ref": "DESIGN.md section 7, C06",
